@@ -51,7 +51,7 @@ from odxmodel import emit, emit_compare as ec, refcompare as ref
 PROPERTY = "C18"
 LEVEL = "exploration"
 
-QUICK_DBS = ["names", "single", "flat", "tree", "shared", "somersault"]
+QUICK_DBS = ["override", "names", "single", "flat", "tree", "shared", "somersault"]
 THOROUGH_DBS = QUICK_DBS + ["somersault_modified"]
 CATS = ["new", "deleted", "renamed", "changed"]
 KEYWORDS = {"byte-position": ["byte"], "bit-length": ["bit"], "coded-value": ["value"], "semantic": ["semantic"],
@@ -253,8 +253,11 @@ def cell(row: Dict[str, str], *words: str) -> Optional[str]:
 # ---------------------------------------------------------------------------------------------
 # judging
 # ---------------------------------------------------------------------------------------------
-def judge(kind: str, edit: Optional[str], exp: Dict[str, Any], obs: Dict[str, Any], via: str) -> List[Tuple[str, str]]:
-    """kind: key component naming the change under test (self/..., new, deleted, rename, <param edit>)"""
+def judge(kind: str, edit: Optional[str], exp: Dict[str, Any], obs: Dict[str, Any], via: str, unequal_objects: bool = False) -> List[Tuple[str, str]]:
+    """kind: key component naming the change under test (self/..., new, deleted, rename, <param edit>).
+    unequal_objects: the two inputs hold the service as objects that are not value-equal (container renamed).  Also
+    then a service that keeps its short name MUST NOT be listed as new or renamed, even if its constant request prefix
+    was edited (key C18/param-edit/request-prefix-changed/also-reported-new; repaired in /repo by 911fd1b)."""
     out: List[Tuple[str, str]] = []
     is_self = kind.startswith("self")
     if sorted(obs["new_layers"]) != exp["new_layers"] or sorted(obs["deleted_layers"]) != exp["deleted_layers"]:
@@ -396,9 +399,12 @@ def run_case(case: Dict[str, Any], part: Optional[Part] = None) -> List[Tuple[st
     db_id, edit, target = case["db"], case.get("edit"), case.get("target")
     files, db, aux = base(db_id)
 
-    def compare_and_judge(kind: str, ed: Optional[str], fn_new: Dict[str, str], fn_old: Dict[str, str], d_new: Any, d_old: Any) -> Optional[Dict[str, Any]]:
+    def compare_and_judge(kind: str, ed: Optional[str], fn_new: Dict[str, str], fn_old: Dict[str, str], d_new: Any, d_old: Any,
+                          unequal: bool = False) -> Optional[Dict[str, Any]]:
         exp = ref.expected_changes(fn_new, fn_old)
-        if exp["ambiguous"] and not kind.startswith("self"):
+        # the constant prefixes decide only between new / deleted / renamed; a service that keeps its short name is
+        # compared by its parameters whatever the prefixes are
+        if exp["ambiguous"] and not kind.startswith("self") and ed not in ec.PARAM_EDITS + ec.DOP_EDITS:
             cnt("out_of_envelope_ambiguous_prefix")
             return None
         try:
@@ -406,21 +412,18 @@ def run_case(case: Dict[str, Any], part: Optional[Part] = None) -> List[Tuple[st
         except Exception as e:  # the tool has to produce a report
             out.append((f"C18/{kind}/raises/{type(e).__name__}", f"comparison raised {type(e).__name__}: {e}"))
             return exp
-        out.extend(judge(kind, ed, exp, via_db, "compare_databases"))
-        out.extend(judge(kind, ed, exp, via_dl, "compare_diagnostic_layers"))
+        tagx = " [container renamed]" if unequal else ""
+        out.extend(judge(kind, ed, exp, via_db, "compare_databases" + tagx, unequal))
+        out.extend(judge(kind, ed, exp, via_dl, "compare_diagnostic_layers" + tagx, unequal))
         cnt("evaluations", 2 * len(exp["layers"]))
         cnt("layer_comparisons", 2 * len(exp["layers"]))
         return exp
 
-    if edit is None:
-        compare_and_judge("self/same-object", None, files, files, db, db)
-        copy = independent_copy(db_id, files, aux)
-        compare_and_judge("self/independent-copy", None, files, files, db, copy)
-        compare_and_judge("self/independent-copy", None, files, files, copy, db)
-        # two different layers of one database (`compare -v A B`)
-        pairs = ref.expected_layer_pairs(files)
-        task = new_task([db])
-        layers = {dl.short_name: dl for dl in db.diag_layers}
+    def layer_pairs(fs: Dict[str, str], d: Any) -> None:
+        """two different layers of ONE database (`compare -v A B`), incl. a variant that overrides an inherited service"""
+        pairs = ref.expected_layer_pairs(fs)
+        task = new_task([d])
+        layers = {dl.short_name: dl for dl in d.diag_layers}
         for pname, pe in pairs.items():
             if pe["ambiguous"]:
                 cnt("layer_pairs_ambiguous")
@@ -435,8 +438,23 @@ def run_case(case: Dict[str, Any], part: Optional[Part] = None) -> List[Tuple[st
                              {"new_layers": [], "deleted_layers": [], "layers": {pname: o}}, "compare_diagnostic_layers"))
             cnt("evaluations")
             cnt("layer_pairs")
+            if any(pe["diff"]["changed"]):
+                cnt("layer_pairs_expecting_changed_parameters")
             if part is not None and any(pe["diff"][c] for c in CATS):
-                part.add("nontrivial", digest((db_id, "pair", pname)))
+                part.add("nontrivial", digest((db_id, edit, target, "pair", pname)))
+
+    if edit is None:
+        compare_and_judge("self/same-object", None, files, files, db, db)
+        copy = independent_copy(db_id, files, aux)
+        compare_and_judge("self/independent-copy", None, files, files, db, copy)
+        compare_and_judge("self/independent-copy", None, files, files, copy, db)
+        layer_pairs(files, db)
+        if not ec.dop_targets(files):
+            # no DOP in the database: a copy whose containers are renamed is the same database for the comparison
+            rfiles = ec.rename_containers(files)
+            rdb = load_files(rfiles, aux)
+            compare_and_judge("self/renamed-container", None, rfiles, files, rdb, db)
+            compare_and_judge("self/renamed-container", None, files, rfiles, db, rdb)
         probs, n, how = judge_metrics(files, db, full=True)
         out.extend(probs)
         cnt("evaluations", n)
@@ -479,6 +497,14 @@ def run_case(case: Dict[str, Any], part: Optional[Part] = None) -> List[Tuple[st
                 part.add("nontrivial", digest((db_id, edit, target, role)))
             part.add("expected_kinds", kind)
     compare_and_judge("self/same-object", None, efiles, efiles, edb, edb)
+    layer_pairs(efiles, edb)
+    if not ec.dop_targets(files):
+        # the edited database in a renamed container against the base: still exactly the edit
+        rfiles = ec.rename_containers(efiles)
+        rdb = load_files(rfiles, aux)
+        cnt("renamed_container_comparisons", 2)
+        compare_and_judge(change_kind(edit, "edited-new"), edit, rfiles, files, rdb, db, True)
+        compare_and_judge(change_kind(edit, "edited-old"), edit, files, rfiles, db, rdb, True)
     if case.get("deep"):
         compare_and_judge("self/independent-copy", None, efiles, efiles, edb, independent_copy(db_id, efiles, aux))
     probs, n, how = judge_metrics(efiles, edb)
@@ -922,6 +948,10 @@ def run(ctx: Ctx) -> None:
         "the overview counts applicable (inherited) objects: DIAG-SERVICEs without single ECU jobs, DATA-OBJECT-PROPs, "
         "COMPARAM-REFs after overriding by (comparam, protocol); a literally repeated COMPARAM-REF may or may not be counted",
         "GLOBAL-NEG-RESPONSEs, structures and single ECU jobs are not compared by the tool and are not edited",
+        "a service a layer defines itself under the short name and constant prefix of an inherited one (override) is the same service "
+        "for a layer-vs-layer comparison; expected are exactly the parameters that differ",
+        "databases whose containers have different short names are compared only where no DOP exists: the identity of a DOP includes "
+        "its document, so the tool reports every DOP-linked parameter as 'Linked DOP object' change there (DON'T-CARE, not judged)",
     ]
     ctx.bounds["cli_invocations"] = {"total": len(clis), "compare": "first file a (base) or b (rename); -db every ordered selection of "
                                      "1..3 of the other files among a / a2 (same content) / b (rename) / c (semantic edit); each with and "
@@ -941,6 +971,8 @@ def run(ctx: Ctx) -> None:
     ctx.guard("all four change kinds expected somewhere", {"new", "deleted", "rename"} <= ctx.sets.get("expected_kinds", set()))
     ctx.guard("metrics table captured", ctx.sets.get("metrics_capture", set()) <= {"table-object", "text"} and bool(ctx.sets.get("metrics_capture")))
     ctx.guard("metric rows checked", c.get("metric_rows", 0) > 0)
+    ctx.guard("layer pairs with an overriding service that expect changed parameters, renamed-container comparisons",
+              c.get("layer_pairs_expecting_changed_parameters", 0) > 0 and c.get("renamed_container_comparisons", 0) > 0)
     ctx.guard("sequences of two comparisons judged", c.get("sequences", 0) == len(seqs))
     ctx.guard("CLI: compare sections and list runs judged", c.get("cli_sections", 0) > 0 and c.get("cli_list_runs", 0) > 0)
     sh = ref.metrics(ec.base_files("shared", repo_root()))
